@@ -308,6 +308,24 @@ func (s *sim) step(op fx.Ev, v uint64) (fx.Ev, error) {
 		if (v>>40)%2 == 1 && len(vals) > 1 { // the order of the validator list is irrelevant
 			vals[0], vals[len(vals)-1] = vals[len(vals)-1], vals[0]
 		}
+		if frame == "std" && (v>>44)%3 == 1 {
+			// the certificate arrives in a block: real xpoa CheckMinerMatch -> CheckProposal
+			x, err := getXpoa(s.n)
+			if err != nil {
+				return nil, err
+			}
+			cs, as := s.concretiseAll(entries(op), idBlock2, v)
+			ok, cerr, err := x.checkMinerMatch(cs)
+			if err != nil {
+				return nil, err
+			}
+			ev["signs"], ev["why"], ev["route"] = as, why(cerr), "xpoa"
+			ev["res"] = "reject"
+			if ok && cerr == nil {
+				ev["res"] = "accept"
+			}
+			break
+		}
 		cs, as := s.concretiseAll(entries(op), id, v)
 		justify := cbft.NewQC(id, pview-1, idR, 0)
 		justify.SignInfos = cs
@@ -456,6 +474,12 @@ func replay(args []string) error {
 			if ev["res"] == "accept" {
 				acc[ev.Str("op")]++
 			}
+			if ev.Str("route") == "xpoa" {
+				acc["xpoa_cases"]++
+				if ev["res"] == "accept" {
+					acc["xpoa_accept"]++
+				}
+			}
 			if o, ok := ev["obs"].(collObs); ok && o.Cert && ev.Str("op") == "votemsg" {
 				acc["certified"]++
 			}
@@ -464,8 +488,8 @@ func replay(args []string) error {
 		nv += verifs[k]
 	}
 	tw.Close()
-	fmt.Printf("{\"behaviours\":%d,\"ops\":%d,\"entries\":%d,\"accept_proposal\":%d,\"accept_vote\":%d,\"accept_thr\":%d,\"certified_events\":%d}\n",
-		len(behs), ops, nv, acc["proposal"], acc["vote"], acc["thr"], acc["certified"])
+	fmt.Printf("{\"behaviours\":%d,\"ops\":%d,\"entries\":%d,\"accept_proposal\":%d,\"accept_vote\":%d,\"accept_thr\":%d,\"certified_events\":%d,\"xpoa_cases\":%d,\"accept_xpoa\":%d}\n",
+		len(behs), ops, nv, acc["proposal"], acc["vote"], acc["thr"], acc["certified"], acc["xpoa_cases"], acc["xpoa_accept"])
 	return nil
 }
 
